@@ -128,6 +128,12 @@ where
 
                             add_to_stream(resp, &self.response_tx);
 
+                            // That was the complete answer. Consume what the
+                            // funneler still sends so that it does not fail
+                            // on a closed channel and push an error response
+                            // after the answer.
+                            while self.batcher_rx.recv().await.is_some() {}
+
                             return Ok(());
                         }
 
